@@ -18,6 +18,9 @@ import (
 //	return h(args)            h's statements follow; its returns return from the caller
 //	x, y := h(args)           h ends in its only `return a, b`: statements, then x, y := a, b
 //	h(args)                   h has no result and no return statement
+//	x, y := h(args)           any other helper (several returns): the statements are wrapped in
+//	if x := h(args); c {..}   a labelled `switch { default: ... }` and every `return a, b` of the
+//	h(args)                   helper becomes `x, y = a, b; break <label>` (go/cfg resolves the label)
 //
 // Parameters (and the receiver) become single-definition locals `param := arg`
 // carrying the helper's own *types.Var, registered in the package's types.Info,
@@ -105,6 +108,15 @@ type flattener struct {
 	count   map[*Func]int
 	inlined map[*Func]bool
 	dry     bool
+	ret     *retCtx // set while the statements of a helper inlined in "general" form are rewritten
+	nlabel  int
+}
+
+// retCtx: what a `return` of the helper being inlined turns into.
+type retCtx struct {
+	lhs   []ast.Expr
+	tok   token.Token
+	label *ast.Ident
 }
 
 func (fl *flattener) block(b *ast.BlockStmt) (*ast.BlockStmt, bool) {
@@ -285,6 +297,126 @@ func (fl *flattener) inlineBody(h *Func, c *ast.CallExpr, dropLast bool) []ast.S
 	return append(out, inner...)
 }
 
+// inlineGeneral: binds, then `L: switch { default: <statements of h with returns rewritten> }`.
+func (fl *flattener) inlineGeneral(h *Func, c *ast.CallExpr, lhs []ast.Expr, tok token.Token) []ast.Stmt {
+	fl.count[h]++
+	saved := fl.ret
+	defer func() { fl.ret = saved }()
+	if fl.dry {
+		fl.stack[h] = true
+		fl.ret = &retCtx{}
+		fl.stmts(h.Body.List)
+		delete(fl.stack, h)
+		return nil
+	}
+	fl.inlined[h] = true
+	out := fl.binds(h, c)
+	fl.nlabel++
+	label := &ast.Ident{Name: fmt.Sprintf("_inlined%d_%s", fl.nlabel, h.Decl.Name.Name), NamePos: c.Pos()}
+	// a multi-value `x, y := h()` whose helper returns `return g()` keeps the single call on the right
+	fl.ret = &retCtx{lhs: lhs, tok: tok, label: label}
+	fl.stack[h] = true
+	body, _ := fl.stmts(h.Body.List)
+	delete(fl.stack, h)
+	if len(body) == 0 {
+		body = h.Body.List
+	}
+	sw := &ast.SwitchStmt{Switch: c.Pos(), Body: &ast.BlockStmt{Lbrace: c.Pos(), List: []ast.Stmt{
+		&ast.CaseClause{Case: c.Pos(), Colon: c.Pos(), Body: body},
+	}, Rbrace: c.End()}}
+	return append(out, &ast.LabeledStmt{Label: label, Colon: c.Pos(), Stmt: sw})
+}
+
+// rangeOfCallback: `m.Range(func(k, v any) bool { ... })` on a sync.Map is the desugared form of
+// `for k, v := range m.Range { ... }` (return false = break, return true = continue). The flattened
+// view shows the loop, so that rules written for one spelling see the other. Only literal callbacks
+// whose returns are constants and not nested in an inner loop/switch/select are rewritten.
+func (fl *flattener) rangeOfCallback(x *ast.ExprStmt) *ast.RangeStmt {
+	c, ok := ast.Unparen(x.X).(*ast.CallExpr)
+	if !ok || len(c.Args) != 1 {
+		return nil
+	}
+	sel, ok := ast.Unparen(c.Fun).(*ast.SelectorExpr)
+	if !ok {
+		return nil
+	}
+	if fn, _ := fl.info.ObjectOf(sel.Sel).(*types.Func); fn == nil || fn.FullName() != "(*sync.Map).Range" {
+		return nil
+	}
+	lit, ok := ast.Unparen(c.Args[0]).(*ast.FuncLit)
+	if !ok || lit.Type.Params == nil {
+		return nil
+	}
+	var ids []*ast.Ident
+	for _, f := range lit.Type.Params.List {
+		ids = append(ids, f.Names...)
+	}
+	if len(ids) != 2 {
+		return nil
+	}
+	okAll := true
+	var rewrite func(list []ast.Stmt, nested bool) []ast.Stmt
+	rewrite = func(list []ast.Stmt, nested bool) []ast.Stmt {
+		out := make([]ast.Stmt, 0, len(list))
+		for _, s := range list {
+			switch y := s.(type) {
+			case *ast.ReturnStmt:
+				if nested || len(y.Results) != 1 {
+					okAll = false
+					return list
+				}
+				tv := fl.info.Types[y.Results[0]]
+				if tv.Value == nil {
+					okAll = false
+					return list
+				}
+				tok := token.BREAK
+				if tv.Value.String() == "true" {
+					tok = token.CONTINUE
+				}
+				out = append(out, &ast.BranchStmt{TokPos: y.Pos(), Tok: tok})
+			case *ast.BlockStmt:
+				out = append(out, &ast.BlockStmt{Lbrace: y.Lbrace, List: rewrite(y.List, nested), Rbrace: y.Rbrace})
+			case *ast.IfStmt:
+				n := &ast.IfStmt{If: y.If, Init: y.Init, Cond: y.Cond, Body: &ast.BlockStmt{Lbrace: y.Body.Lbrace, List: rewrite(y.Body.List, nested), Rbrace: y.Body.Rbrace}, Else: y.Else}
+				if y.Else != nil {
+					r := rewrite([]ast.Stmt{y.Else}, nested)
+					if len(r) == 1 {
+						n.Else = r[0]
+					}
+				}
+				out = append(out, n)
+			case *ast.ForStmt, *ast.RangeStmt, *ast.SwitchStmt, *ast.TypeSwitchStmt, *ast.SelectStmt, *ast.LabeledStmt:
+				// a return in here would need a labelled break: give up if there is one
+				ast.Inspect(y, func(m ast.Node) bool {
+					switch m.(type) {
+					case *ast.FuncLit:
+						return false
+					case *ast.ReturnStmt:
+						okAll = false
+					}
+					return true
+				})
+				out = append(out, s)
+			default:
+				out = append(out, s)
+			}
+		}
+		return out
+	}
+	body := rewrite(lit.Body.List, false)
+	if !okAll {
+		return nil
+	}
+	// the literal's trailing `return true` became a trailing continue: harmless
+	return &ast.RangeStmt{For: x.Pos(), Key: ids[0], Value: ids[1], TokPos: x.Pos(), Tok: token.DEFINE, Range: x.Pos(), X: sel,
+		Body: &ast.BlockStmt{Lbrace: lit.Body.Lbrace, List: body, Rbrace: lit.Body.Rbrace}}
+}
+
+func (fl *flattener) generalOK(h *Func) bool {
+	return fl.p.OpaqueGeneral == nil || !fl.p.OpaqueGeneral(h)
+}
+
 func (fl *flattener) usable(h *Func) bool {
 	return h != nil && (fl.dry || fl.count[h] == 1)
 }
@@ -292,6 +424,21 @@ func (fl *flattener) usable(h *Func) bool {
 func (fl *flattener) stmt(s ast.Stmt) ([]ast.Stmt, bool) {
 	switch x := s.(type) {
 	case *ast.ReturnStmt:
+		if fl.ret != nil {
+			if fl.dry {
+				return nil, false
+			}
+			var out []ast.Stmt
+			if len(fl.ret.lhs) > 0 && len(x.Results) > 0 {
+				out = append(out, &ast.AssignStmt{Lhs: fl.ret.lhs, TokPos: x.Pos(), Tok: fl.ret.tok, Rhs: x.Results})
+			} else {
+				for _, e := range x.Results {
+					out = append(out, &ast.ExprStmt{X: e})
+				}
+			}
+			out = append(out, &ast.BranchStmt{TokPos: x.Pos(), Tok: token.BREAK, Label: fl.ret.label})
+			return out, true
+		}
 		if len(x.Results) == 1 {
 			if c, ok := ast.Unparen(x.Results[0]).(*ast.CallExpr); ok {
 				if h := fl.helperOf(c); fl.usable(h) {
@@ -336,6 +483,10 @@ func (fl *flattener) stmt(s ast.Stmt) ([]ast.Stmt, bool) {
 						out = append(out, &ast.AssignStmt{Lhs: x.Lhs, TokPos: x.TokPos, Tok: x.Tok, Rhs: rhs})
 						return out, true
 					}
+					if len(rets) > 0 && fl.generalOK(h) {
+						out := fl.inlineGeneral(h, c, x.Lhs, x.Tok)
+						return out, !fl.dry
+					}
 				}
 			}
 		}
@@ -343,9 +494,23 @@ func (fl *flattener) stmt(s ast.Stmt) ([]ast.Stmt, bool) {
 			return []ast.Stmt{&ast.AssignStmt{Lhs: x.Lhs, TokPos: x.TokPos, Tok: x.Tok, Rhs: e}}, true
 		}
 	case *ast.ExprStmt:
+		if rs := fl.rangeOfCallback(x); rs != nil {
+			if fl.dry {
+				fl.block(rs.Body)
+				return nil, false
+			}
+			if body, ch := fl.block(rs.Body); ch {
+				rs.Body = body
+			}
+			return []ast.Stmt{rs}, true
+		}
 		if c, ok := ast.Unparen(x.X).(*ast.CallExpr); ok {
 			if h := fl.helperOf(c); fl.usable(h) && h.Decl.Type.Results == nil && len(ownReturns(h)) == 0 {
 				out := fl.inlineBody(h, c, false)
+				return out, !fl.dry
+			}
+			if h := fl.helperOf(c); fl.usable(h) && h.Decl.Type.Results == nil && len(ownReturns(h)) > 0 && fl.generalOK(h) {
+				out := fl.inlineGeneral(h, c, nil, token.ASSIGN)
 				return out, !fl.dry
 			}
 		}
@@ -365,6 +530,16 @@ func (fl *flattener) stmt(s ast.Stmt) ([]ast.Stmt, bool) {
 			return []ast.Stmt{b}, true
 		}
 	case *ast.IfStmt:
+		if x.Init != nil {
+			// `if v := h(args); cond { .. }`: inline the init statement in front of the if
+			if pre, ch := fl.stmt(x.Init); ch {
+				rest, _ := fl.stmt(&ast.IfStmt{If: x.If, Cond: x.Cond, Body: x.Body, Else: x.Else})
+				if rest == nil {
+					rest = []ast.Stmt{&ast.IfStmt{If: x.If, Cond: x.Cond, Body: x.Body, Else: x.Else}}
+				}
+				return append(pre, rest...), true
+			}
+		}
 		body, c1 := fl.block(x.Body)
 		var els ast.Stmt = x.Else
 		c2 := false
@@ -439,7 +614,12 @@ func (fl *flattener) expr(e ast.Expr) (ast.Expr, bool) {
 			return &ast.ParenExpr{Lparen: x.Lparen, X: in, Rparen: x.Rparen}, true
 		}
 	case *ast.FuncLit:
-		if body, ch := fl.block(x.Body); ch {
+		// returns inside a literal belong to the literal
+		saved := fl.ret
+		fl.ret = nil
+		body, ch := fl.block(x.Body)
+		fl.ret = saved
+		if ch {
 			n := &ast.FuncLit{Type: x.Type, Body: body}
 			if tv, ok := fl.info.Types[x]; ok {
 				fl.info.Types[n] = tv
